@@ -17,12 +17,16 @@ package trafficlogger
 // report accepted the report that had to be refused).
 
 import (
+	"context"
 	"encoding/json"
 	"fmt"
+	"io"
+	"net"
 	"net/http"
 	"net/http/httptest"
 	"sort"
 	"strings"
+	"sync"
 	"testing"
 
 	"verif.local/engine/evidence"
@@ -56,7 +60,82 @@ const (
 
 var c15hNames = [...]string{"connect(u)", "disconnect(u)", "kick[u]", "report(u,1,16)", "connect(v)", "disconnect(v)", "kick[u,v]", "report(v,2,32)", "traffic", "traffic?clear=1", "online", "report(u,0,0)"}
 
-func (o c15hOp) String() string { return c15hNames[o] }
+func (o c15hOp) String() string {
+	if o >= c15hNOps {
+		m, t := c15hWire(o)
+		return m + " " + t + " (net/http)"
+	}
+	return c15hNames[o]
+}
+
+// The METHOD of a request to the stats API, and the real net/http path. The operations above
+// reach the handler through an httptest.ResponseRecorder and hold the method constant (GET for
+// /traffic and /online, POST for /kick). A wire operation sends one request of every method of
+// c15hMethods to every target of c15hTargets through a real net/http client and a real net/http
+// server around the handler (over an in-memory net.Pipe, no socket), and the reference accounts
+// for what the caller actually RECEIVES: net/http sends no body in the answer to a HEAD request,
+// which a recorder would hide. The property's clauses judge it, no status code of a method the
+// property does not name is demanded: bytes are handed out by a clearing request only as far as
+// its received body lists them (conservation over received snapshots, checked by the two polls
+// after every step), a user is kicked when the API answered 200 to the kick request (and POST
+// /kick must answer 200), a received GET /online body equals connects minus disconnects.
+// Added after the independently seeded change C15-11 (ServeHTTP routed HEAD like GET, so a HEAD
+// /traffic?clear=1 probe swapped the stats map out while net/http discarded the snapshot).
+var (
+	c15hMethods = []string{http.MethodGet, http.MethodHead, http.MethodPost, http.MethodPut, http.MethodDelete, http.MethodOptions}
+	c15hTargets = []string{"/traffic", "/traffic?clear=1", "/online", "/kick", "/dump/streams"}
+)
+
+// c15hWire decodes a wire operation (numbered from c15hNOps, method-major).
+func c15hWire(o c15hOp) (method, target string) {
+	i := int(o - c15hNOps)
+	return c15hMethods[i/len(c15hTargets)], c15hTargets[i%len(c15hTargets)]
+}
+
+type c15hPipeListener struct {
+	conns chan net.Conn
+	done  chan struct{}
+	once  sync.Once
+}
+
+func (l *c15hPipeListener) Accept() (net.Conn, error) {
+	select {
+	case c := <-l.conns:
+		return c, nil
+	case <-l.done:
+		return nil, net.ErrClosed
+	}
+}
+func (l *c15hPipeListener) Close() error   { l.once.Do(func() { close(l.done) }); return nil }
+func (l *c15hPipeListener) Addr() net.Addr { return &net.UnixAddr{Name: "c15h-pipe", Net: "pipe"} }
+
+// c15hRoundTrip: one request through net/http's client and server code over an in-memory pipe;
+// returns what the caller of the API receives.
+func c15hRoundTrip(h http.Handler, method, target, body string) (int, string, error) {
+	cc, sc := net.Pipe()
+	ln := &c15hPipeListener{conns: make(chan net.Conn, 1), done: make(chan struct{})}
+	ln.conns <- sc
+	srv := &http.Server{Handler: h}
+	go func() { _ = srv.Serve(ln) }()
+	defer srv.Close()
+	tr := &http.Transport{DisableKeepAlives: true, DialContext: func(context.Context, string, string) (net.Conn, error) { return cc, nil }}
+	defer tr.CloseIdleConnections()
+	var rd io.Reader
+	if body != "" {
+		rd = strings.NewReader(body)
+	}
+	req, err := http.NewRequest(method, "http://stats.invalid"+target, rd)
+	if err != nil {
+		return 0, "", err
+	}
+	resp, err := tr.RoundTrip(req)
+	if err != nil {
+		return 0, "", err
+	}
+	b, err := io.ReadAll(resp.Body)
+	_ = resp.Body.Close()
+	return resp.StatusCode, string(b), err
+}
 
 // c15hMaxConns bounds the number of simultaneous connections of one user in a history.
 const c15hMaxConns = 2
@@ -158,6 +237,55 @@ func (y *c15hSys) traffic(clear bool) error {
 	return nil
 }
 
+// wire performs one wire operation (see c15hMethods) and moves the reference by what was received.
+func (y *c15hSys) wire(method, target string) error {
+	body := ""
+	if target == "/kick" {
+		body = `["u"]`
+	}
+	code, got, err := c15hRoundTrip(y.s, method, target, body)
+	if err != nil {
+		return fmt.Errorf("wire answer: %s %s: no HTTP answer: %v", method, target, err)
+	}
+	switch target {
+	case "/traffic", "/traffic?clear=1":
+		var m map[string]trafficStatsEntry
+		perr := json.Unmarshal([]byte(got), &m)
+		if method == http.MethodGet && (code != http.StatusOK || perr != nil) {
+			return fmt.Errorf("traffic answer: GET %s answered %d %q", target, code, got)
+		}
+		if target == "/traffic?clear=1" && code == http.StatusOK && perr == nil {
+			// a clearing snapshot hands out exactly the bytes its received body lists
+			for id, v := range m {
+				c := y.cleared[id]
+				c[0] += v.Tx
+				c[1] += v.Rx
+				y.cleared[id] = c
+			}
+		}
+	case "/kick":
+		if method == http.MethodPost && code != http.StatusOK {
+			return fmt.Errorf("kick status: POST /kick %s answered %d %q", body, code, got)
+		}
+		if code == http.StatusOK {
+			y.kick["u"] = true
+		}
+	case "/online":
+		if method == http.MethodGet {
+			var m map[string]int
+			if err := json.Unmarshal([]byte(got), &m); code != http.StatusOK || err != nil {
+				return fmt.Errorf("online answer: GET /online answered %d %q", code, got)
+			}
+			want, _ := json.Marshal(y.online)
+			have, _ := json.Marshal(m)
+			if string(have) != string(want) {
+				return fmt.Errorf("online listing: GET /online shows %s, connected authenticated connections are %s", have, want)
+			}
+		}
+	}
+	return nil
+}
+
 func (y *c15hSys) listing() error {
 	code, body := y.do(http.MethodGet, "/online", "")
 	var m map[string]int
@@ -208,6 +336,8 @@ func (y *c15hSys) Apply(op c15hOp) error {
 		err = y.traffic(true)
 	case c15hOnline:
 		err = y.listing()
+	default:
+		err = y.wire(c15hWire(op))
 	}
 	if err != nil {
 		return err
@@ -279,7 +409,50 @@ func c15hOps() []c15hOp {
 	return ops
 }
 
+// c15hWireOps: the operations of the histories plus every method x target wire operation.
+func c15hWireOps() []c15hOp {
+	ops := c15hOps()
+	for i := 0; i < len(c15hMethods)*len(c15hTargets); i++ {
+		ops = append(ops, c15hNOps+c15hOp(i))
+	}
+	return ops
+}
+
+// c15hRunWire: one search from the empty server over the 12 operations and the 30 wire
+// operations, shallower than the histories (every wire operation multiplies the branching).
+func c15hRunWire(sh *evidence.Shard) {
+	env := sh.Env()
+	if !env.Mine(int64(c15hNOps)) {
+		return
+	}
+	depth := 4
+	if env.Thorough() {
+		depth = 6
+	}
+	p := sh.Part("histories/methods", "xstate")
+	var names []string
+	for _, o := range c15hWireOps() {
+		names = append(names, o.String())
+	}
+	p.Alphabet = map[string]any{
+		"operations": names,
+		"methods":    c15hMethods,
+		"targets":    c15hTargets,
+		"dimension":  "HTTP method x target of a request, served by a real net/http server and client over net.Pipe (a HEAD answer arrives without body), anywhere in a history of reports, kicks, connects and polls; cleared bytes are counted from the RECEIVED body",
+	}
+	p.Bounds = map[string]any{"max_depth": depth, "max_connections_per_user": c15hMaxConns, "users": 2}
+	res := xstate.BFS(xstate.Config[c15hOp]{Ops: c15hWireOps(), New: c15hNew, MaxDepth: depth, Enabled: c15hEnabled, MaxStates: 400000}, p, env)
+	if res.Violation != nil {
+		var h []string
+		for _, o := range res.History {
+			h = append(h, o.String())
+		}
+		sh.Violate(p.Name, "histories/"+strings.SplitN(res.Violation.Error(), ":", 2)[0]+"/"+strings.Join(h, ";"), res.Violation.Error(), res.History)
+	}
+}
+
 func c15hRun(sh *evidence.Shard) {
+	c15hRunWire(sh)
 	env := sh.Env()
 	depth := 7
 	if env.Thorough() {
